@@ -160,10 +160,21 @@ Definition poll_leaf (ready : list N) (l : leaf) : lres * list obs :=
 
 (** ** Waker slots *)
 
-Definition same_slot (a b : reg) : bool :=
-  N.eqb (r_g a) (r_g b) && Nat.eqb (r_k a) (r_k b) && Nat.eqb (r_b a) (r_b b).
+Definition wk_eqb (a b : wk) : bool :=
+  match a, b with
+  | WRoot, WRoot => true
+  | WTask t, WTask u => Nat.eqb t u
+  | _, _ => false
+  end.
 
-(** A parked future keeps ONE slot per gate: re-polled, it overwrites its own waker. *)
+(** A parked leaf keeps ONE slot on its gate: re-polled, it overwrites its own waker.  A leaf
+    is always polled with the same waker (the root's for an inline chain, its task's for a
+    spawned one), so "overwrite" is "insert if absent"; the slot is identified by gate and
+    leaf (k,b) -- the waker, a function of the leaf, is compared too, which makes [add_reg]
+    plain set insertion. *)
+Definition same_slot (a b : reg) : bool :=
+  N.eqb (r_g a) (r_g b) && Nat.eqb (r_k a) (r_k b) && Nat.eqb (r_b a) (r_b b) && wk_eqb (r_w a) (r_w b).
+
 Definition add_reg (r : reg) (regs : list reg) : list reg :=
   if existsb (same_slot r) regs then regs else regs ++ [r].
 
